@@ -245,24 +245,39 @@ func runLSM(u Univ, cfg Config, seed uint64, steps int, path string) (int, error
 }
 
 func emitDirList(r *Runner, t *Trace, when string) {
-	ssts, blobs := []int{}, 0
-	ls, _ := r.FS.List(r.Dir)
-	for _, f := range ls {
-		if strings.HasPrefix(f, "ext-") {
-			continue
-		}
-		switch filepath.Ext(f) {
-		case ".sst":
-			if n, err := strconv.Atoi(strings.TrimSuffix(f, ".sst")); err == nil {
-				ssts = append(ssts, n)
+	list := func() ([]int, int) {
+		ssts, blobs := []int{}, 0
+		ls, _ := r.FS.List(r.Dir)
+		for _, f := range ls {
+			if strings.HasPrefix(f, "ext-") {
+				continue
 			}
-		case ".blob":
-			blobs++
+			switch filepath.Ext(f) {
+			case ".sst":
+				if n, err := strconv.Atoi(strings.TrimSuffix(f, ".sst")); err == nil {
+					ssts = append(ssts, n)
+				}
+			case ".blob":
+				blobs++
+			}
 		}
+		sort.Ints(ssts)
+		return ssts, blobs
 	}
-	sort.Ints(ssts)
+	// The property speaks of the directory "once deletions have been processed": a job that just
+	// finished may still be handing its obsolete files to the cleaner (there is no API to wait for
+	// that hand-over), so the listing is retried for a bounded time while files are still
+	// disappearing.  A file that lingers for good is still reported.
+	ssts, blobs := list()
+	live := physFiles(r.DB)
+	for i := 0; i < 400 && len(ssts) != len(live); i++ {
+		time.Sleep(5 * time.Millisecond)
+		r.DB.TestOnlyWaitForCleaning()
+		ssts, blobs = list()
+		live = physFiles(r.DB)
+	}
 	m := r.DB.Metrics()
-	t.Emit(Ev{"op": "dirlist", "when": when, "ssts": ssts, "live": physFiles(r.DB), "blobs": blobs,
+	t.Emit(Ev{"op": "dirlist", "when": when, "ssts": ssts, "live": live, "blobs": blobs,
 		"liveblobs": int(m.BlobFiles.Live.Total().Count)})
 }
 
